@@ -40,13 +40,16 @@ pub fn s2(len: usize, idx: u64, flags: u64, observer: bool) -> Result<(u64, Outc
     Ok((steps, last))
 }
 /// S3: a 2-instruction program with one vectored interrupt raised at poll `at` (handler at x1F00: push/pop R0, RTI).
-pub fn s3(idx: u64, flags: u64, at: u64, prio: u8, observer: bool) -> Result<(u64, bool), (String, String)> {
+pub fn s3(idx: u64, flags: u64, at: u64, prio: u8, observer: bool) -> Result<(u64, bool), (String, String)> { s3_slot(idx, flags, at, prio, observer, 0) }
+/// `slot`: the interrupting device is installed with `add_device` (0), as the machine's display (1) or as its keyboard (2)
+pub fn s3_slot(idx: u64, flags: u64, at: u64, prio: u8, observer: bool, slot: u8) -> Result<(u64, bool), (String, String)> {
     let (mut m, _) = program_machine(2, idx, flags);
+    if slot == 1 { m.display = false; } else if slot == 2 { m.kb = None; m.kb_ie = false; }
     // handler: ADD R6,R6,#-1; STR R0,R6,#0; AND R0,R0,#0; LDR R0,R6,#0; ADD R6,R6,#1; RTI
     for (k, w) in [0x1DBFu16, 0x7180, 0x5020, 0x6180, 0x1DA1, 0x8000].iter().enumerate() { m.pokes.push((0x1F00 + k as u16, *w)); }
     m.pokes.push((0x0190, 0x1F00));
     let mut p = build(&m);
-    p.add_source(0x90, prio, vec![at]);
+    p.add_source_in_slot(slot, 0x90, prio, vec![at]);
     let mut steps = 0u64; let mut taken = false;
     for _ in 0..HORIZON {
         let info = step_compare(&mut p, observer)?;
@@ -149,6 +152,16 @@ pub fn run(ctx: &Ctx) -> Report {
         }
     });
     rep.absorb(r);
+    // the interrupting device registered through the other public calls (as the display, as the keyboard): same schedules, every program
+    let r = sweep(ctx, 1600 * 2 * 4 * 2, 16, |k, acc| {
+        let (idx, flags, at, slot) = (k / 16, k / 8 % 2 * 2, [0u64, 1, 2, 5][(k / 2 % 4) as usize], (k % 2) as u8 + 1);
+        acc.evals += 1; acc.count("s3_schedules_device_in_display_or_keyboard_slot", 1);
+        match s3_slot(idx, flags, at, 4, false, slot) {
+            Ok((steps, taken)) => { acc.transitions += steps; acc.traces += 1; if taken { acc.count("s3_slot_interrupts_taken", 1); acc.nontrivial += 1; } }
+            Err((sig, d)) => acc.violation(format!("slot{slot}:{sig}"), format!("s3s:{idx}:{flags}:{at}:{slot}"), format!("interrupting device installed with {}: {d}", if slot == 1 { "set_display" } else { "set_keyboard" })),
+        }
+    });
+    rep.absorb(r);
     scale_sweeps(ctx, &mut rep);
     rep.bound("contexts", Json::i(nctx)); rep.bound("program_length", Json::i(maxlen as u64)); rep.bound("horizon", Json::i(HORIZON as u64));
     rep.require(rep.acc.get("s3_interrupts_taken") > 1000, "interrupts were taken in S3");
@@ -166,6 +179,7 @@ pub fn replay(case: &str) -> Option<String> {
         "s1" => s1(n(1)?, n(2)? as u16, false).map(|_| ()),
         "s2" => s2(n(1)? as usize, n(2)?, n(3)?, false).map(|_| ()),
         "s3" => s3(n(1)?, n(2)?, n(3)?, n(4)? as u8, false).map(|_| ()),
+        "s3s" => s3_slot(n(1)?, n(2)?, n(3)?, 4, false, n(4)? as u8).map(|_| ()),
         "s4" => s4(n(1)?, n(2)?, n(3)? as u32).map(|_| ()),
         "s2c" => s2_churn(1, n(1)?, n(2)?, n(3)? as u32).map(|_| ()),
         _ => return None,
